@@ -12,7 +12,7 @@ use cooklang::{CooklangParser, ScalableRecipe, ScalableValue, ScaledRecipe};
 
 /// Rewrites a JSON text as produced by serde_json (no insignificant spaces are assumed, but tolerated):
 /// strings and keys → quoted code-point lists, floats → `#bits`, integers unchanged; order preserved.
-fn canon_json(src: &str) -> Result<String, String> {
+pub(crate) fn canon_json(src: &str) -> Result<String, String> {
     let b: Vec<char> = src.chars().collect();
     let mut i = 0usize;
     let mut out = String::with_capacity(src.len() * 2);
@@ -79,7 +79,7 @@ fn jv(v: &serde_yaml::Value) -> Result<String, String> {
         Y::Tagged(_) => return Err("tagged YAML value".into()),
     })
 }
-fn kvs(m: &serde_yaml::Mapping) -> Result<String, String> {
+pub(crate) fn kvs(m: &serde_yaml::Mapping) -> Result<String, String> {
     let mut o = String::from("(");
     for (k, v) in m {
         let k = k.as_str().ok_or_else(|| format!("non-string YAML key {k:?}"))?;
@@ -102,14 +102,14 @@ fn num_finite(n: &Number) -> bool { match n { Number::Regular(v) => v.is_finite(
 fn value_finite(v: &Value) -> bool { match v { Value::Number(n) => num_finite(n), Value::Range { start, end } => num_finite(start) && num_finite(end), Value::Text(_) => true } }
 fn sv_finite(v: &ScalableValue) -> bool { match v { ScalableValue::Fixed(v) | ScalableValue::Linear(v) => value_finite(v) } }
 
-fn scalable_finite(r: &ScalableRecipe) -> bool {
+pub(crate) fn scalable_finite(r: &ScalableRecipe) -> bool {
     r.ingredients.iter().all(|i| i.quantity.as_ref().map_or(true, |q| sv_finite(q.value())))
         && r.cookware.iter().all(|i| i.quantity.as_ref().map_or(true, sv_finite))
         && r.timers.iter().all(|i| i.quantity.as_ref().map_or(true, |q| sv_finite(q.value())))
         && r.inline_quantities.iter().all(|q| value_finite(q.value()))
         && !r.metadata.map.iter().any(|(k, v)| yaml_nonfinite(k) || yaml_nonfinite(v))
 }
-fn scaled_finite(r: &ScaledRecipe) -> bool {
+pub(crate) fn scaled_finite(r: &ScaledRecipe) -> bool {
     r.ingredients.iter().all(|i| i.quantity.as_ref().map_or(true, |q| value_finite(q.value())))
         && r.cookware.iter().all(|i| i.quantity.as_ref().map_or(true, value_finite))
         && r.timers.iter().all(|i| i.quantity.as_ref().map_or(true, |q| value_finite(q.value())))
